@@ -20,6 +20,7 @@ import (
 	"bytes"
 	"encoding/binary"
 	"io"
+	"math"
 
 	"github.com/codenotary/immudb/pkg/errors"
 )
@@ -55,15 +56,17 @@ func (r *msgReceiver) ReadFully() (message []byte, metadata map[string][]byte, e
 		return nil, firstChunk.Metadata, errors.New(ErrChunkTooSmall)
 	}
 
-	msgSize := int(binary.BigEndian.Uint64(firstChunk.Content))
+	announcedSize := binary.BigEndian.Uint64(firstChunk.Content)
+	if announcedSize > math.MaxInt64 {
+		return nil, firstChunk.Metadata, errors.New(ErrInvalidMessageLength)
+	}
+	msgSize := int(announcedSize)
 
-	b := make([]byte, msgSize)
-	read := 0
+	// the announced size is not trusted for allocation: the buffer grows with the received data
+	b := make([]byte, 0, min(msgSize, len(firstChunk.Content)-8))
+	b = append(b, firstChunk.Content[8:]...)
 
-	copy(b, firstChunk.Content[8:])
-	read += len(firstChunk.Content) - 8
-
-	for read < msgSize {
+	for len(b) < msgSize {
 		chunk, err := r.stream.Recv()
 		if err == io.EOF {
 			break
@@ -72,15 +75,14 @@ func (r *msgReceiver) ReadFully() (message []byte, metadata map[string][]byte, e
 			return b, firstChunk.Metadata, err
 		}
 
-		copy(b[read:], chunk.Content)
-		read += len(chunk.Content)
+		b = append(b, chunk.Content...)
 	}
 
-	if read < msgSize {
+	if len(b) < msgSize {
 		return b, firstChunk.Metadata, io.EOF
 	}
 
-	return b, firstChunk.Metadata, nil
+	return b[:msgSize], firstChunk.Metadata, nil
 }
 
 // Read read fill message with received data and return the number of read bytes or error. If no message is present it returns 0 and io.EOF. If the message is complete it returns 0 and nil, in that case successive calls to Read will returns a new message.
@@ -119,7 +121,11 @@ func (r *msgReceiver) Read(data []byte) (n int, err error) {
 			if err != nil {
 				return 0, err
 			}
-			r.tl = int(binary.BigEndian.Uint64(trailer))
+			tl := binary.BigEndian.Uint64(trailer)
+			if tl > math.MaxInt64 {
+				return 0, errors.New(ErrInvalidMessageLength)
+			}
+			r.tl = int(tl)
 		}
 
 		// no more data in stream but buffer is not enough large to contains the expected value
